@@ -2488,10 +2488,17 @@ func (s *Store) waitForLinearizableRead(currReadTerm uint64, linearizableTimeout
 // the FSM (configuration changes, no-ops, barriers), so the FSM index can never
 // reach the index of such an entry until a later command is applied. If the FSM
 // has already applied every command at or before idx, the current FSM index is
-// returned. If the log cannot be read, idx itself is returned.
+// returned, as it is when the remaining entries have been compacted away by a
+// snapshot. If the log cannot be read, idx itself is returned.
 func (s *Store) lastFSMIndexAtOrBefore(idx uint64) uint64 {
 	fsmIdx := s.fsmIdx.Load()
+	firstIdx, firstErr := s.raftLog.FirstIndex()
 	for i := idx; i > fsmIdx; i-- {
+		if firstErr == nil && i < firstIdx {
+			// Entries before the first log entry have been compacted away by a
+			// snapshot, and a snapshot only covers entries the FSM has applied.
+			return fsmIdx
+		}
 		var l raft.Log
 		if err := s.raftLog.GetLog(i, &l); err != nil {
 			return idx
